@@ -54,6 +54,6 @@ func C20(tier string) int {
 	return sweepCheck("C20", tier, []run.Kind{run.Signature},
 		explore.CaseOpts{Prefixes: true, Edits: true, Seqs: tier == "thorough"}, c20Safety,
 		report.FinishOpts{Level: "exploration",
-			Rule:         "E1 sweep, signature help at every cursor: a returned signature names a known function, lists fixed+variadic parameters and has a valid active index; non-trivial = signature returned",
-			BiteCounters: []string{"signatures"}}, nil)
+			Rule:         "(safety, all files incl. half-typed calls) E1 sweep, signature help at every cursor: a returned signature names a known function, lists fixed+variadic parameters and has a valid active index. (exactness, complete calls) function set {0..3 fixed params} x {no variadic, variadic} + namespaced + unknown x call grammar (0..4 arguments from literal/traversal/tuple/object/string-with-commas/nested call, nesting <= 2 (quick) / 3 (thorough), layout variants) placed in 3 contexts x every cursor: result == model (innermost known call whose parentheses contain the cursor; active = own commas before the cursor, clamped to the variadic parameter; none when slot >= parameters without variadic); positions right before '(' / right after ')' are boundary positions (either answer). non-trivial = signature returned",
+			BiteCounters: []string{"signatures", "exact_comparisons"}}, func(c *report.Collector) { c20Exact(c, tier) })
 }
